@@ -156,10 +156,37 @@ def new_dir(ctx, tag):
     return d
 
 
+class Q(object):
+    """string scalar '<v> <u>' of a generated tree (a value with explicit units)"""
+    __slots__ = ('v', 'u')
+
+    def __init__(self, v, u):
+        self.v = Fraction(v)
+        self.u = u
+
+    def text(self):
+        return '%s %s' % (dec_text(self.v), self.u)
+
+    def __repr__(self):
+        return 'Q(%s)' % self.text()
+
+
+class Bad(object):
+    """a string scalar that is no quantity"""
+    __slots__ = ('s',)
+
+    def __init__(self, s):
+        self.s = s
+
+
 def yaml_scalar(v):
     """text of a scalar of a generated tree: None -> null, Fraction/int -> decimal text, str -> quoted string"""
     if v is None:
         return 'null'
+    if isinstance(v, Q):
+        return '"%s"' % v.text()
+    if isinstance(v, Bad):
+        return '"%s"' % v.s
     if isinstance(v, (Fraction, int)) and not isinstance(v, bool):
         return dec_text(v)
     if isinstance(v, str):
@@ -190,6 +217,10 @@ def tree_equal(parsed, tree):
         return isinstance(parsed, list) and len(parsed) == len(tree) and all(tree_equal(a, b) for a, b in zip(parsed, tree))
     if tree is None:
         return parsed is None
+    if isinstance(tree, Q):
+        return isinstance(parsed, str) and parsed == tree.text()
+    if isinstance(tree, Bad):
+        return isinstance(parsed, str) and parsed == tree.s
     if isinstance(tree, str):
         return isinstance(parsed, str) and parsed == tree
     if isinstance(tree, (Fraction, int)):
@@ -241,6 +272,53 @@ def obs_library(lib):
 # JSON encodings for the driver
 def jr(q):
     return common.jrat(Fraction(q))
+
+
+def jtree(t):
+    """generated tree -> the driver's JSON encoding of a YAML value"""
+    if t is None:
+        return None
+    if isinstance(t, Q):
+        return {'q': jr(t.v), 'u': t.u}
+    if isinstance(t, Bad):
+        return {'bad': True}
+    if isinstance(t, dict):
+        return {'m': [[str(k), jtree(v)] for k, v in t.items()]}
+    if isinstance(t, (list, tuple)):
+        return [jtree(v) for v in t]
+    if isinstance(t, (Fraction, int)) and not isinstance(t, bool):
+        return jr(t)
+    raise common.MachineryError('tree node %r' % (t,))
+
+
+def jshow(t):
+    """generated tree -> plain JSON-able form for replay files"""
+    if isinstance(t, Q):
+        return {'Q': [str(t.v), t.u]}
+    if isinstance(t, Bad):
+        return {'Bad': t.s}
+    if isinstance(t, dict):
+        return {'map': [[str(k), jshow(v)] for k, v in t.items()]}
+    if isinstance(t, (list, tuple)):
+        return [jshow(v) for v in t]
+    if isinstance(t, Fraction):
+        return {'F': str(t)}
+    return t
+
+
+def junshow(j):
+    if isinstance(j, dict):
+        if 'Q' in j:
+            return Q(Fraction(j['Q'][0]), j['Q'][1])
+        if 'Bad' in j:
+            return Bad(j['Bad'])
+        if 'F' in j:
+            return Fraction(j['F'])
+        if 'map' in j:
+            return dict((k, junshow(v)) for k, v in j['map'])
+    if isinstance(j, list):
+        return [junshow(v) for v in j]
+    return j
 
 
 def j_opt(q):
